@@ -549,8 +549,17 @@ def unitOfDisplay (s : String) : Option U :=
     | [n, d] => do let n ← auList n; let d ← auList d; some (U.mk n d)
     | _ => none
 
+/-- enclosure of `π^k` -/
+def piPow (k : Int) : Rat × Rat :=
+  if k ≥ 0 then (piLo ^ k.toNat, piHi ^ k.toNat) else (1 / piHi ^ (-k).toNat, 1 / piLo ^ (-k).toNat)
+
+/-- enclosure of the value of a `Sym` -/
+def symInterval (s : Sym) : Rat × Rat :=
+  let (a, b) := piPow s.k
+  if s.q ≥ 0 then (s.q * a, s.q * b) else (s.q * b, s.q * a)
+
 /-- P̂ for products and quotients: the printed number-with-unit denotes the same quantity as the
-    expression, by the CSS ratios (tolerance: the 10 printed digits + 2⁻⁴⁰ relative). -/
+    expression, by the CSS ratios (tolerance: the 10 printed digits + 2⁻⁴⁰ relative; π by enclosure). -/
 def checkQty (txt : List Char) (toks : List String) : Option Bool :=
   match specRpn toks [] with
   | none => none
@@ -559,10 +568,11 @@ def checkQty (txt : List Char) (toks : List String) : Option Bool :=
     match parseLit nt, unitOfDisplay (String.ofList ut) with
     | some l, some u =>
       let got := snQty l.value u
-      let scale := (unitQty u).val.q
-      let tol : Rat := absQ scale / 10000000000 + absQ want.val.q / 1099511627776
-      some (decide (got.atoms = want.atoms) && decide (got.val.k = want.val.k) &&
-            decide (absQ (got.val.q - want.val.q) ≤ tol))
+      let (sl, sh) := symInterval (unitQty u).val
+      let (gl, gh) := symInterval got.val
+      let (wl, wh) := symInterval want.val
+      let tol : Rat := (absQ sl + absQ sh) / 10000000000 + (absQ wl + absQ wh) / 1099511627776
+      some (decide (got.atoms = want.atoms) && decide (gl - tol ≤ wh) && decide (wl ≤ gh + tol))
     | _, _ => some false
 
 def errS : UErr → String
